@@ -117,8 +117,15 @@ pub fn gen_session(seed: u64, run: u64, thorough: bool) -> Session {
                     ops.push(PlannedOp::new(Op::Save { uri: uri.clone() }));
                 }
                 _ => {
-                    // close and re-open with the same text (what an editor does on tab switch)
-                    let text = models[&uri].text.clone();
+                    // close and re-open: with the same text (what an editor does on a tab switch)
+                    // or with another one (the file was changed outside the editor meanwhile)
+                    let text = if rng.chance(1, 2) {
+                        models[&uri].text.clone()
+                    } else {
+                        let (t, _) = crate::gen::mutate(&mut rng, &models[&uri].text);
+                        t
+                    };
+                    models.insert(uri.clone(), DocModel { text: text.clone() });
                     ops.push(PlannedOp::new(Op::Close { uri: uri.clone() }));
                     ops.push(PlannedOp::new(Op::Open { uri: uri.clone(), text }));
                     est_tasks += 1;
